@@ -177,6 +177,54 @@ def directed_alias(rnd):
     return p
 
 
+def directed_star_shadow(rnd):
+    """Directed family: a `*` requirement reused from a copy higher in the tree, and below the star-dependent a
+    nested package that needs another version of the same package: the second copy must not be hoisted onto the
+    lookup path of the reuse. Roles are permuted; some digits stay symbolic."""
+    np = rnd.choice([3, 4])
+    p = skeleton2(rnd, np=np)
+    for k in list(p):
+        if k.endswith("t") and (k.startswith("p") or k.startswith("r") or k.startswith("b")):
+            p[k] = 0
+    roles = rnd.sample(list(range(1, np + 1)), np)
+    A, D, X = roles[:3]
+    Z = roles[3] if np == 4 else 0
+
+    def put(tag, t, digit, op=1, kind=0):
+        p.update({tag + "t": t, tag + "r": op, tag + "k": kind, tag + "a": 0, tag + "c": digit})
+
+    def ver(pk, vi, major):
+        tag = "%d%d" % (pk - 1, vi)
+        p.update({"mj" + tag: major, "mi" + tag: 0, "pr" + tag: 0, "bl" + tag: 0})
+        return tag
+    for pk in roles:
+        p["latest%d" % (pk - 1)] = -1
+        p["next%d" % (pk - 1)] = -1
+    slots = [(A, 1, 1), (D, 1, 1), (X, rnd.choice([0, 1]), rnd.choice([1, 2]))] + ([(Z, 1, 1)] if Z else [])
+    rnd.shuffle(slots)
+    for i, (t, dgt, op) in enumerate(slots):
+        put("r%d" % i, t, dgt, op=op)
+    p["nv%d" % (A - 1)] = 1
+    ta = ver(A, 0, 1)
+    star_first = rnd.random() < 0.5
+    put("p%ss%d" % (ta, 0 if star_first else 1), X, 1, op=0)                     # a requires x@*
+    put("p%ss%d" % (ta, 1 if star_first else 0), D, rnd.choice([0, 2]), op=1)     # and d@2 (maybe a symbolic digit)
+    p["nv%d" % (D - 1)] = 2
+    ver(D, 0, 1)
+    td = ver(D, 1, 2)
+    put("p%ss0" % td, X, rnd.choice([0, 2]), op=rnd.choice([1, 1, 2, 3]))          # the nested d@2 requires x@2
+    p["nv%d" % (X - 1)] = 2
+    ver(X, 0, 1)
+    ver(X, 1, 2)
+    if Z:
+        p["nv%d" % (Z - 1)] = 2
+        ver(Z, 0, 1)
+        tz = ver(Z, 1, 2)
+        put("p%ss0" % tz, X, 1, op=2)     # z@2 -> x@^1
+        put("p%ss1" % td, Z, 2, op=1)     # d@2 -> z@2
+    return p
+
+
 def directed_bundle_pick(rnd):
     """Directed family: the version installed afresh is not the highest match (the highest is deprecated, the
     latest tag does not satisfy), and the installed version, the highest one or both ship a bundle."""
@@ -244,6 +292,7 @@ def run(tier):
     # universes with bundled (derived) packages: the graph clauses only
     jobs2 += [dict(base, harness="VerifC06Install", params=skeleton2(rnd2, bundle_p=0.35)) for _ in range(300 if q else 4000)]
     jobs2 += [dict(base, harness="VerifC06Install", params=directed_bundle_pick(rnd2)) for _ in range(40 if q else 400)]
+    jobs2 += [dict(base, harness="VerifC06Install", params=directed_star_shadow(rnd2)) for _ in range(24 if q else 240)]
     return run_property("C06", tier, [Group("rnpm", jobs + jobs2)],
                         required_covers=["resolved", "a graph with several nodes", "fresh install checked", "a nested install (depth 2)",
                                          "a nested install below a nested install (depth 3)", "an edge resolved to a nested install", "a bundled copy used", "the bundle of an installed version looked for"],
